@@ -1703,6 +1703,20 @@ func registerStrings() {
 		return in.tc.Ite(lt, in.i64(-1), in.tc.Ite(gt, in.i64(1), in.i64(0)))
 	}
 	I["internal/stringslite.Index"] = I["strings.Index"]
+	I["maps.clone"] = func(in *Interp, fr *frame, fn *ssa.Function, a []value) value {
+		i := a[0].(iface)
+		m, _ := i.v.(*Map)
+		if m == nil {
+			return i
+		}
+		out := newMap()
+		for _, e := range m.entries {
+			if !e.deleted {
+				in.mapSet(out, e.key, e.val)
+			}
+		}
+		return iface{t: i.t, v: out}
+	}
 	I["internal/abi.NoEscape"] = func(in *Interp, fr *frame, fn *ssa.Function, a []value) value { return a[0] }
 	I["internal/abi.Escape"] = func(in *Interp, fr *frame, fn *ssa.Function, a []value) value { return a[0] }
 	I["internal/race.Enabled"] = func(in *Interp, fr *frame, fn *ssa.Function, a []value) value { return in.tc.False() }
